@@ -2341,3 +2341,103 @@ func (c *Ctx) indexSync(rule string, funcs []*FuncInfo) (n, nviol int) {
 	}
 	return
 }
+
+// ---------------------------------------------------------------------------------------------
+// SHADOW-RESULT: in a function whose error result is named (err), an inner `err := f()` declares
+// another variable; if the branch taken when that inner error is non-nil neither returns a value
+// explicitly nor leaves the process, the function goes on to its bare `return` and reports the
+// OUTER err, still nil: the failure is logged at best and the caller (cobra: the exit status) sees
+// success.
+func (c *Ctx) shadowResult(rule string, pkgs []*packages.Package, clause string) (n, nviol int) {
+	for _, p := range pkgs {
+		info := p.TypesInfo
+		for _, f := range p.Syntax {
+			walkStack(f, func(m ast.Node, stack []ast.Node) bool {
+				var ft *ast.FuncType
+				var body *ast.BlockStmt
+				switch x := m.(type) {
+				case *ast.FuncDecl:
+					ft, body = x.Type, x.Body
+				case *ast.FuncLit:
+					ft, body = x.Type, x.Body
+				}
+				if ft == nil || body == nil || ft.Results == nil {
+					return true
+				}
+				var res types.Object
+				for _, fl := range ft.Results.List {
+					for _, nm := range fl.Names {
+						if o := info.Defs[nm]; o != nil && isErrorType(o.Type()) {
+							res = o
+						}
+					}
+				}
+				if res == nil {
+					return true
+				}
+				n++
+				// inner definitions of a variable with the same name
+				ast.Inspect(body, func(q ast.Node) bool {
+					if lit, ok := q.(*ast.FuncLit); ok && lit.Body != body {
+						return false // its own results
+					}
+					is, ok := q.(*ast.IfStmt)
+					if !ok || is.Init == nil {
+						return true
+					}
+					as, ok := is.Init.(*ast.AssignStmt)
+					if !ok || as.Tok != token.DEFINE {
+						return true
+					}
+					var inner types.Object
+					for _, l := range as.Lhs {
+						if id, ok := unparen(l).(*ast.Ident); ok && id.Name == res.Name() {
+							if o := info.Defs[id]; o != nil && o != res && isErrorType(o.Type()) {
+								inner = o
+							}
+						}
+					}
+					if inner == nil {
+						return true
+					}
+					// the condition tests the inner error for non-nil
+					to, trueIsNonNil, ok := nilTest(info, is.Cond)
+					if !ok || to != inner || !trueIsNonNil {
+						return true
+					}
+					handled := false
+					ast.Inspect(is.Body, func(r ast.Node) bool {
+						switch y := r.(type) {
+						case *ast.ReturnStmt:
+							if len(y.Results) > 0 {
+								handled = true
+							}
+						case *ast.CallExpr:
+							if g := calleeOf(info, y); g != nil {
+								if (g.Pkg() != nil && g.Pkg().Path() == "os" && g.Name() == "Exit") || g.Name() == "ExitWithMessage" || strings.HasPrefix(g.Name(), "Fatal") {
+									handled = true
+								}
+							}
+							if id, ok := unparen(y.Fun).(*ast.Ident); ok && id.Name == "panic" {
+								handled = true
+							}
+						case *ast.BranchStmt:
+							handled = true // break/continue: a loop deals with it
+						}
+						return true
+					})
+					key := c.enclosingFuncName(info, append(append([]ast.Node{}, stack...), m)) + "/" + c.canon(info, as.Rhs[0], nil)
+					if handled {
+						return true
+					}
+					nviol++
+					c.Violation(rule, key, as.Pos(), fmt.Sprintf("`%s := ...` declares a new variable that hides the function's named result %s; when it is non-nil the branch neither returns it nor stops, so the function reaches its bare return with the outer %s still nil: the failure is not reported to the caller", res.Name(), res.Name(), res.Name())).Clause = clause
+					return true
+				})
+				return true
+			})
+		}
+	}
+	c.Trivial(rule, "scan", token.NoPos, fmt.Sprintf("%d functions with a named error result examined", n))
+	return
+}
